@@ -244,7 +244,18 @@ def find_writes(repo: Repo, fns: Dict[Tuple[str, str], Fn]) -> List[Write]:
                 elif d in ("exec", "eval"):
                     out.append(Write("exec-shared", "exec in the caller's own namespace", f, n))
                 elif d in PROCESS_SETTINGS:
-                    const = all(isinstance(a, ast.Constant) or ratchet(a, d) for a in n.args)
+                    def is_const(a: ast.AST) -> bool:
+                        if isinstance(a, ast.Constant):
+                            return True
+                        # a named constant: module-level name / class attribute bound once to a constant expression
+                        from .consteval import try_const
+
+                        m = repo.mod(f.mod)
+                        c = m.cls(f.cls) if getattr(f, "cls", None) and m.has_class(f.cls) else None
+                        v = try_const(m, a, c, None)
+                        return isinstance(v, (int, float, str)) and not isinstance(v, bool)
+
+                    const = all(is_const(a) or ratchet(a, d) for a in n.args)
                     out.append(Write("process-const" if const else "process", d, f, n, detail=ast.unparse(n)))
     return out
 
